@@ -43,8 +43,8 @@ pub fn run_tree(o: &Opts) {
     };
     let trace = sc::trace_take();
     // the specification, interpreted on the same symbolic values
-    let st0 = RefState { markers: BTreeSet::new(), bal: w.bal.clone() };
-    let mut it = Interp { uids: &uids, calls: vec![], ks: vec![] };
+    let st0 = RefState::new(w.bal.clone());
+    let mut it = Interp::new(&w, &uids);
     let exp = it.run(&root, &st0);
     let got_calls = observed_calls(&w, &trace, &|e| uid_of_ev(e));
     let (gc, ec): (Vec<_>, Vec<_>) = (got_calls.iter().map(|c| c.core()).collect(), it.calls.iter().map(|c| c.core()).collect());
@@ -65,6 +65,19 @@ pub fn run_tree(o: &Opts) {
             }
             let b = balance(&w.app, &w.sink, "x");
             check("balances_reflect_exactly_the_kept_transfers", eq(v(b), st.bal[w.ks.len()]));
+            // contracts created by instantiate sub-messages: exactly the kept ones exist
+            let after = snapshot(&w.app);
+            let (n0, n1) = (contracts_in(&before), contracts_in(&after));
+            check_native("registry_holds_exactly_the_kept_instantiations", n1 == n0 + st.instances.len(), || {
+                format!("{} contracts before, {} after, {} instantiations kept by the specification", n0, n1, st.instances.len())
+            });
+            let im = instance_markers(&after);
+            check_native("instance_storage_is_exactly_that_of_kept_instantiations", im == st.instances, || {
+                format!("expected {:?} got {:?}", st.instances, im)
+            });
+            if !st.instances.is_empty() {
+                witness("some_instance_kept");
+            }
         }
         (Err(_), Err(())) => {
             witness("tree_err");
@@ -86,14 +99,17 @@ pub fn describe(n: &Node) -> String {
         cosmwasm_std::ReplyOn::Error => "E",
         cosmwasm_std::ReplyOn::Always => "A",
     };
+    let rc = if n.reply_children.is_empty() { String::new() } else { format!(">[{}]", n.reply_children.iter().map(describe).collect::<Vec<_>>().join(" ")) };
     match &n.kind {
-        Kind::Bank { .. } => format!("B{}{}", m, if n.reply_fail { "!" } else { "" }),
+        Kind::Bank { .. } => format!("B{}{}{}", m, if n.reply_fail { "!" } else { "" }, rc),
+        Kind::Instantiate { fail } => format!("I{}{}{}{}", m, if n.reply_fail { "!" } else { "" }, if *fail { "x" } else { "" }, rc),
         Kind::Contract { fail, children } => format!(
-            "C{}{}{}({})",
+            "C{}{}{}({}){}",
             m,
             if n.reply_fail { "!" } else { "" },
             if *fail { "x" } else { "" },
-            children.iter().map(describe).collect::<Vec<_>>().join(" ")
+            children.iter().map(describe).collect::<Vec<_>>().join(" "),
+            rc
         ),
     }
 }
@@ -162,17 +178,23 @@ pub fn scenarios(tier: &str) -> Vec<Scenario> {
     let mut v = vec![];
     v.push(Scenario::new("same_key_rewritten_inside_one_transaction", &["rewrite_ok"], rewrite_same_key));
     v.push(Scenario::new("trees_depth2_nodes3", &["tree_ok", "tree_err", "some_failure_caught"], || {
-        run_tree(&Opts { max_depth: 2, max_nodes: 3, max_children: 2, vary_output: false, vary_ids: false })
+        run_tree(&Opts { max_depth: 2, max_nodes: 3, max_children: 2, vary_output: false, vary_ids: false, reply_subs: false, inst_leaves: false })
     }));
     v.push(Scenario::new("trees_depth2_nodes4_chain", &["tree_ok", "tree_err", "some_failure_caught"], || {
-        run_tree(&Opts { max_depth: 2, max_nodes: 4, max_children: 1, vary_output: false, vary_ids: false })
+        run_tree(&Opts { max_depth: 2, max_nodes: 4, max_children: 1, vary_output: false, vary_ids: false, reply_subs: false, inst_leaves: false })
+    }));
+    v.push(Scenario::new("trees_nodes3_reply_handlers_emit_submessages_instantiate_leaves", &["tree_ok", "tree_err", "some_failure_caught", "some_instance_kept"], || {
+        run_tree(&Opts { max_depth: 1, max_nodes: 3, max_children: 2, vary_output: false, vary_ids: false, reply_subs: true, inst_leaves: true })
     }));
     if tier == "thorough" {
+        v.push(Scenario::new("trees_depth2_nodes4_reply_handlers_emit_submessages_instantiate_leaves", &["tree_ok", "tree_err", "some_failure_caught", "some_instance_kept"], || {
+            run_tree(&Opts { max_depth: 2, max_nodes: 4, max_children: 2, vary_output: false, vary_ids: false, reply_subs: true, inst_leaves: true })
+        }));
         v.push(Scenario::new("trees_depth2_nodes4", &["tree_ok", "tree_err", "some_failure_caught"], || {
-            run_tree(&Opts { max_depth: 2, max_nodes: 4, max_children: 2, vary_output: false, vary_ids: false })
+            run_tree(&Opts { max_depth: 2, max_nodes: 4, max_children: 2, vary_output: false, vary_ids: false, reply_subs: false, inst_leaves: false })
         }));
         v.push(Scenario::new("trees_depth3_nodes5_chain", &["tree_ok", "tree_err"], || {
-            run_tree(&Opts { max_depth: 3, max_nodes: 5, max_children: 1, vary_output: false, vary_ids: false })
+            run_tree(&Opts { max_depth: 3, max_nodes: 5, max_children: 1, vary_output: false, vary_ids: false, reply_subs: false, inst_leaves: false })
         }));
     }
     v
